@@ -402,39 +402,62 @@ func kindOf(typ zed.Type) string {
 	return "prim"
 }
 
-// hasTie reports whether typ contains a union with two distinct member types
-// that zed.CompareTypes cannot order.
-func hasTie(typ zed.Type) bool {
+// tieOf looks for a union inside typ with two distinct member types that
+// zed.CompareTypes cannot order.  It returns "" (none), "known" (the members
+// are named types with the same name and the same underlying type: finding
+// F-C05-3) or "other:<kind>" for any other pair.
+func tieOf(typ zed.Type) string {
+	best := ""
+	merge := func(s string) {
+		if s != "" && (best == "" || best == "known") {
+			best = s
+		}
+	}
 	switch t := typ.(type) {
 	case *zed.TypeNamed:
-		return hasTie(t.Type)
+		merge(tieOf(t.Type))
 	case *zed.TypeRecord:
 		for _, f := range t.Fields {
-			if hasTie(f.Type) {
-				return true
-			}
+			merge(tieOf(f.Type))
 		}
 	case *zed.TypeArray:
-		return hasTie(t.Type)
+		merge(tieOf(t.Type))
 	case *zed.TypeSet:
-		return hasTie(t.Type)
+		merge(tieOf(t.Type))
 	case *zed.TypeError:
-		return hasTie(t.Type)
+		merge(tieOf(t.Type))
 	case *zed.TypeMap:
-		return hasTie(t.KeyType) || hasTie(t.ValType)
+		merge(tieOf(t.KeyType))
+		merge(tieOf(t.ValType))
 	case *zed.TypeUnion:
 		for i, a := range t.Types {
 			for _, b := range t.Types[i+1:] {
 				if a != b && zed.CompareTypes(a, b) == 0 {
-					return true
+					na, oka := a.(*zed.TypeNamed)
+					nb, okb := b.(*zed.TypeNamed)
+					if oka && okb && na.Name == nb.Name && na.ID() == nb.ID() {
+						merge("known")
+					} else {
+						merge("other:" + kindOf(a))
+					}
 				}
 			}
-			if hasTie(a) {
-				return true
-			}
+			merge(tieOf(a))
 		}
 	}
-	return false
+	return best
+}
+
+func hasTie(typ zed.Type) bool { return tieOf(typ) != "" }
+
+// tieSig is the violation signature for an order-sensitive union.
+func tieSig(typs ...zed.Type) string {
+	for _, t := range typs {
+		if k := tieOf(t); k != "" && k != "known" {
+			return "union-order-sensitive:comparetypes-tie:" + k
+		}
+	}
+	return sigTie
 }
 
 // MarshalJSON renders empty slices as [] (TLC must see tuples, not null).
